@@ -808,6 +808,15 @@ func (f *Flooder) SendFullTable(peerID identity.AgentID) {
 			}
 		}
 
+		// Every agent on the replayed path has already handled this
+		// advertisement: list them all in seen-by (as a flooded copy would)
+		// and do not send it to a peer that is on the path. With only the
+		// replaying agent in seen-by, an agent on the path would forward the
+		// advertisement again with its own ID prepended a second time.
+		if containsAgent(path, peerID) {
+			continue
+		}
+
 		// One advertisement per group that fits (see splitRoutes). Replayed
 		// routes keep the sequence number their origin gave them (a stored
 		// group came from one advertisement, so it fits and is not split
@@ -825,7 +834,7 @@ func (f *Flooder) SendFullTable(peerID identity.AgentID) {
 				Sequence:          seq,
 				Routes:            group,
 				Path:              path,
-				SeenBy:            []identity.AgentID{f.localID},
+				SeenBy:            path,
 			}
 
 			frame := &protocol.Frame{
